@@ -333,7 +333,56 @@ fn run_case(c: &WtCase, stride: usize, phase: usize, st: &mut Stats) -> Vec<Viol
         }
         st.inc("sessions_after_drafts");
     }
-    let r = sweep(&info, &mut lsp, stride, phase, st);
+    let mut r = sweep(&info, &mut lsp, stride, phase, st);
+    // half of the sessions go on: one module gets a comment line in front (an unsaved edit in an open document) and
+    // the workspace as it is then is swept again, more thinly: every position of that module is one line further
+    // down, in the answers about every module
+    let shifted: Vec<PrintedModule>;
+    if matches!(&r, Ok(v) if v.is_empty()) && phase % 4 >= 2 && !c.printed[0].text.starts_with(OVERFLOWING_LITERAL) {
+        const LINE: &str = "// edited\n";
+        let em = (phase / 4) % c.printed.len();
+        shifted = c
+            .printed
+            .iter()
+            .enumerate()
+            .map(|(m, pm)| {
+                let mut q = pm.clone();
+                if m == em {
+                    let sh = |r: &std::ops::Range<usize>| (r.start + LINE.len())..(r.end + LINE.len());
+                    q.text = format!("{LINE}{}", pm.text);
+                    for o in q.occs.iter_mut() {
+                        o.range = sh(&o.range);
+                        o.qual = o.qual.as_ref().map(sh);
+                    }
+                    for d in q.decl_ranges.iter_mut() {
+                        d.1 = sh(&d.1);
+                    }
+                    for r in q.stmts.iter_mut() {
+                        *r = sh(r);
+                    }
+                }
+                q
+            })
+            .collect();
+        let uri = file_uri(&dir.path.join(&c.printed[em].file));
+        let sent = lsp
+            .did_open(&uri, &c.printed[em].text)
+            .and_then(|_| lsp.did_change(&uri, 2, &[(Some([[0, 0], [0, 0]]), LINE.to_owned())]));
+        let info2 = WsInfo::new(&dir.path, &c.prog, &shifted);
+        r = match sent {
+            Ok(()) => sweep(&info2, &mut lsp, stride * 2, phase, st).map(|mut v| {
+                for x in v.iter_mut() {
+                    if let Some(sig) = x.detail.get("signature").and_then(Value::as_str).map(str::to_owned) {
+                        x.detail["signature"] = json!(format!("{sig} after an edit"));
+                        x.detail["edited_module"] = json!(c.printed[em].file);
+                    }
+                }
+                v
+            }),
+            Err(e) => Err(e),
+        };
+        st.inc("sessions_swept_again_after_an_edit");
+    }
     // the one diagnostic expected in a valid workspace: the overflowing literal some sessions put on line 0
     let published: usize = lsp
         .diags
@@ -413,7 +462,7 @@ impl Workload for Navigation {
         if idx % 8 == 6 {
             with_overflowing_literal(&mut c);
         }
-        run_case(&c, 1, 0, st)
+        run_case(&c, 1, idx as usize, st)
     }
     fn chunk(&self) -> u64 {
         2
